@@ -207,7 +207,7 @@ func checkOneSnap(sr *snapRun, sn *snapShot, refs []partRef) (string, bool, []st
 }
 
 func c08Cfg(t *rapid.T, tasks int) concGenCfg {
-	cfg := concGenCfg{Tasks: tasks, MaxTxns: 2, Deletes: true, Puts: true, Inserts: true}
+	cfg := concGenCfg{Tasks: tasks, MaxTxns: 2, Deletes: true, Puts: true, Inserts: true, Aborts: true}
 	if KFActive("f10-inflight-insert-visible") {
 		// known finding: reservations of in-flight inserts are visible to snapshots
 		if cfg.Inserts {
